@@ -78,6 +78,26 @@ def run(R, env):
         if not shared.term_in_all_paths(term, lambda s: norm(s) in deliveries):
             okp = False
     R.ob("C03.R2", "LiquidStake:one-delivery-on-every-success-path", okp and n > 0, "a success path of LiquidStake carries neither the bank delivery nor the IBC delivery of the minted tokens", fn=hk)
+    # ---- arm selection: which delivery is taken for which recipient (truth table over the three tests)
+    vcall = lambda t, pfx: t[0] == "call" and t[1] == "std::result::Result::is_ok" and t[2][0][0] == "call" and shared._body_of_call(prog, t[2][0]) is not None and len(t[2][0][2]) == 2 and shared.recipient_term(prog, t[2][0][2][0]) and loaded_field(prog, t[2][0][2][1], "config", [pfx, "account_address_prefix"], CRATE)
+    isP = lambda t: vcall(t, "protocol_chain_config")
+    isN = lambda t: vcall(t, "native_chain_config")
+    isF = lambda t: t[0] == "call" and t[1] == "std::option::Option::unwrap_or" and shared.msg_field(t[2][0], "LiquidStake", "transfer_to_native_chain") and t[2][1] == ("const", "bool", False)
+    seenP = any(isP(s_) for _, atom in h.atoms() if atom[0] == "bool" for s_ in subterms(atom[1]))
+    seenN = any(isN(s_) for _, atom in h.atoms() if atom[0] == "bool" for s_ in subterms(atom[1]))
+    R.ob("C03.R2", "LiquidStake:recipient-classified-by-both-prefixes", seenP and seenN, "the recipient is not tested with validate_address against the protocol prefix (%s) and the native prefix (%s)" % (seenP, seenN), fn=hk)
+    TABLE = [((True, False, None), "bank"), ((False, True, None), "ibc"), ((True, True, False), "bank"), ((True, True, True), "ibc"), ((False, False, None), "none")]
+    for (p_, n_, f_), want in TABLE:
+        w = h.assume_bool(isP, p_).assume_bool(isN, n_)
+        if f_ is not None:
+            w = w.assume_bool(isF, f_)
+        w = w.settle(rounds=10)
+        R.worlds += 1
+        nb = len(shared.find_msgs(prog, w, env.depth, ["bank::v1beta1::MsgSend", "cosmwasm_std::BankMsg"]))
+        ni = len([t for t in shared.transfers(prog, w, env) if lst_denom(prog, t["denom"])])
+        succ = any(e["kind"] != "err" for e in exits(w))
+        got = "none" if not succ else ("bank" if nb and not ni else "ibc" if ni and not nb else "both" if nb and ni else "neither")
+        R.ob("C03.R2", "LiquidStake:arm:protocol=%s,native=%s,to_native=%s" % (p_, n_, f_), got == want, "recipient valid on protocol chain=%s / native chain=%s, transfer_to_native_chain=%s: delivery is `%s`, expected `%s`" % (p_, n_, f_, got, want), fn=hk)
     # ---------------- R3
     hs = sites["SubmitBatch"]
     sk = hs.body.key
